@@ -62,6 +62,9 @@ type c20In struct {
 	Events   []c20Ev    `json:"events"`
 	ExpectWf bool       `json:"expectWf"`
 	Mut      string     `json:"mut,omitempty"`
+	// the printer object has already printed another stream (one failed apply, one skipped prune) before this one:
+	// counts and the result error are per stream, whatever the printer printed before
+	Reuse bool `json:"reuse,omitempty"`
 }
 
 func c20ToGroups(gs []c20Group) []event.ActionGroup {
@@ -275,29 +278,49 @@ func runC20(in c20In) (out c20Out) {
 	ioStreams := genericiooptions.IOStreams{In: &bytes.Buffer{}, Out: &buf, ErrOut: &bytes.Buffer{}}
 	// exactly what cmd/apply, cmd/destroy do for --output json
 	p := printers.GetPrinter(printers.JSONPrinter, ioStreams)
-	ch := make(chan event.Event)
-	done := make(chan struct{})
-	go func() {
-		defer close(ch)
-		for _, e := range evs {
-			select {
-			case ch <- e:
-			case <-done:
-				return
-			}
-		}
-	}()
-	var perr error
-	func() {
-		defer func() {
-			if r := recover(); r != nil {
-				out.Panic = true
-				out.Msg = fmt.Sprint(r)
+	printStream := func(evs []event.Event) (perr error) {
+		ch := make(chan event.Event)
+		done := make(chan struct{})
+		go func() {
+			defer close(ch)
+			for _, e := range evs {
+				select {
+				case ch <- e:
+				case <-done:
+					return
+				}
 			}
 		}()
-		perr = p.Print(ch, common.DryRunNone, in.PS)
-	}()
-	close(done)
+		func() {
+			defer func() {
+				if r := recover(); r != nil {
+					out.Panic = true
+					out.Msg = fmt.Sprint(r)
+				}
+			}()
+			perr = p.Print(ch, common.DryRunNone, in.PS)
+		}()
+		close(done)
+		return perr
+	}
+	if in.Reuse {
+		wa := fromJid(jid{"warm", "a", "", "ConfigMap"})
+		wb := fromJid(jid{"warm", "b", "", "ConfigMap"})
+		groups := event.ActionGroupList{{Name: "apply-0", Action: event.ApplyAction, Identifiers: object.ObjMetadataSet{wa}},
+			{Name: "prune-0", Action: event.PruneAction, Identifiers: object.ObjMetadataSet{wb}}}
+		_ = printStream([]event.Event{
+			{Type: event.InitType, InitEvent: event.InitEvent{ActionGroups: groups}},
+			{Type: event.ActionGroupType, ActionGroupEvent: event.ActionGroupEvent{GroupName: "apply-0", Action: event.ApplyAction, Status: event.Started}},
+			{Type: event.ApplyType, ApplyEvent: event.ApplyEvent{GroupName: "apply-0", Identifier: wa, Status: event.ApplyFailed, Error: errors.New("warm-up failure")}},
+			{Type: event.ActionGroupType, ActionGroupEvent: event.ActionGroupEvent{GroupName: "apply-0", Action: event.ApplyAction, Status: event.Finished}},
+			{Type: event.ActionGroupType, ActionGroupEvent: event.ActionGroupEvent{GroupName: "prune-0", Action: event.PruneAction, Status: event.Started}},
+			{Type: event.PruneType, PruneEvent: event.PruneEvent{GroupName: "prune-0", Identifier: wb, Status: event.PruneSkipped, Error: errors.New("warm-up skip")}},
+			{Type: event.ActionGroupType, ActionGroupEvent: event.ActionGroupEvent{GroupName: "prune-0", Action: event.PruneAction, Status: event.Finished}},
+		})
+		buf.Reset()
+		out.Panic, out.Msg = false, ""
+	}
+	perr := printStream(evs)
 
 	// the result
 	out.Err = "none"
@@ -426,7 +449,7 @@ func c20WaitItems(rng *proto.Rng, g c20Group, failBias int) []c20Ev {
 
 // one well-formed stream
 func c20Gen(rng *proto.Rng, maxGroups, maxIds int) c20In {
-	in := c20In{PS: rng.Bool(), ExpectWf: true, Plan: []c20Group{}, Events: []c20Ev{}}
+	in := c20In{PS: rng.Bool(), ExpectWf: true, Plan: []c20Group{}, Events: []c20Ev{}, Reuse: rng.Chance(1, 4)}
 	nIds := 1 + rng.Intn(maxIds)
 	ids := append([]jid{}, c20Universe...)
 	for len(ids) < nIds {
